@@ -350,6 +350,25 @@ func envFilesOutcome(m map[string]string, err error) map[string]any {
 	return map[string]any{"ok": m}
 }
 
+// realRead: dotenv.ReadWithLookup on the same files (lookup function only; keys starting with a digit dropped)
+func realRead(a filesArgs) any {
+	dir := os.Getenv("VERIF_SCRATCH")
+	if dir == "" {
+		dir = os.TempDir()
+	}
+	var names []string
+	for i, c := range a.Files {
+		f := filepath.Join(dir, fmt.Sprintf("r-%d-%d.env", os.Getpid(), i))
+		if err := os.WriteFile(f, []byte(c), 0o600); err != nil {
+			return map[string]any{"bad": err.Error()}
+		}
+		defer os.Remove(f)
+		names = append(names, f)
+	}
+	m, err := dotenv.ReadWithLookup(lookupFn(a.Lookup), names...)
+	return envFilesOutcome(m, err)
+}
+
 // ---------------------------------------------------------------- registration
 
 func init() {
@@ -427,6 +446,23 @@ func init() {
 			}
 			if !core.CanonEqual(real, drv) {
 				return core.Disagree("Dotenv.fromFiles ≠ dotenv.GetEnvFromFile")
+			}
+			return nil
+		},
+	})
+	core.Register("readFiles", &core.CheckDef{
+		Real: func(raw json.RawMessage) any {
+			var a filesArgs
+			json.Unmarshal(raw, &a)
+			return realRead(a)
+		},
+		DriverOp: "readFiles",
+		Judge: func(args, real, drv json.RawMessage) *core.Verdict {
+			if v := core.CrashVerdict(real); v != nil {
+				return v
+			}
+			if !core.CanonEqual(real, drv) {
+				return core.Disagree("Dotenv.readFiles ≠ dotenv.ReadWithLookup")
 			}
 			return nil
 		},
@@ -532,6 +568,10 @@ func c18Exhaustive(ctx *core.Ctx) {
 		ctx.Add("dotenv", dotenvArgs{Src: src, Lookup: c18Lookups[0]})
 		if strings.ContainsAny(src, "A$") {
 			ctx.Add("dotenv", dotenvArgs{Src: src, Lookup: c18Lookups[1]})
+		}
+		if strings.Contains(src, "$") {
+			// a variable the lookup reports as set to the empty string is set (it must not fall through to earlier lines)
+			ctx.Add("dotenv", dotenvArgs{Src: src, Lookup: c18Lookups[2]})
 		}
 		ctx.Count(tag)
 		if n == 0 {
@@ -738,6 +778,35 @@ func c18Grammar(ctx *core.Ctx) {
 			}
 		}
 	}
+	// 2a'. precedence of the interpolation environment, exhaustively: every reference form × quoting ×
+	// state of the name in the lookup (unset / set-but-empty / set) × an earlier line defining it or not
+	refs := []string{"$N", "${N}", "${N-d}", "${N:-d}", "${N+a}", "${N:+a}", "${N?e}", "${N:?e}", "x$N.y", "${M:-$N}"}
+	lookups := []map[string]string{{}, {"N": ""}, {"N": "L"}, {"N": "", "M": ""}}
+	for _, ref := range refs {
+		for _, quoted := range []bool{false, true} {
+			for _, lk := range lookups {
+				for _, earlier := range []int{0, 1, 2} {
+					var ls []dline
+					if earlier >= 1 {
+						ls = append(ls, dline{K: "assign", Key: "N", Sep: "=", V: &dvalue{T: "unq", S: "early"}})
+					}
+					if earlier == 2 {
+						ls = append(ls, dline{K: "assign", Key: "N", Sep: "=", V: &dvalue{T: "sq"}}) // later assignment: N=''
+					}
+					v := &dvalue{T: "unq", S: ref}
+					if quoted {
+						v = &dvalue{T: "dq"}
+						for _, r := range ref {
+							v.Items = append(v.Items, qitem{C: sp(string(r))})
+						}
+					}
+					ls = append(ls, dline{K: "assign", Key: "K", Sep: "=", V: v}, dline{K: "bare", Key: "N"})
+					ctx.Count("spec-precedence")
+					ctx.Add("dotenvSpec", dspecArgs{Lines: ls, Lookup: lk})
+				}
+			}
+		}
+	}
 	// 2b. random files of up to 6 lines
 	for i := 0; i < ctx.Pick(60000, 1500000); i++ {
 		n := 1 + ctx.Rng.Intn(6)
@@ -879,6 +948,11 @@ func c18Files(ctx *core.Ctx) {
 			files = append(files, s)
 		}
 		ctx.Count(fmt.Sprintf("env-files-%d", nf))
-		ctx.Add("envFiles", filesArgs{Files: files, Lookup: genLookup(ctx)})
+		lk := genLookup(ctx)
+		ctx.Add("envFiles", filesArgs{Files: files, Lookup: lk})
+		if i%2 == 0 {
+			ctx.Count("read-files")
+			ctx.Add("readFiles", filesArgs{Files: files, Lookup: lk})
+		}
 	}
 }
